@@ -83,6 +83,7 @@ class TcpClient(object):
         messages_mlat = []
         msg = []
         i = 0
+        start = 0  # position of the <esc> that opened the frame being read
 
         # process the buffer until the last divider <esc> 0x1a
         # then, reset the self.buffer with the remainder
@@ -91,32 +92,22 @@ class TcpClient(object):
             if self.buffer[i : i + 2] == [0x1A, 0x1A]:
                 msg.append(0x1A)
                 i += 1
-            elif (i == len(self.buffer) - 1) and (self.buffer[i] == 0x1A):
-                # special case where the last bit is 0x1a
-                msg.append(0x1A)
             elif self.buffer[i] == 0x1A:
                 if i == len(self.buffer) - 1:
-                    # special case where the last bit is 0x1a
-                    msg.append(0x1A)
-                elif len(msg) > 0:
+                    # <esc> is the last byte: either a divider or the first
+                    # half of <esc><esc>, decided when the next byte arrives
+                    break
+                if len(msg) > 0:
                     messages_mlat.append(msg)
                     msg = []
+                start = i
             else:
                 msg.append(self.buffer[i])
             i += 1
 
-        # save the reminder for next reading cycle, if not empty
-        if len(msg) > 0:
-            reminder = []
-            for i, m in enumerate(msg):
-                if (m == 0x1A) and (i < len(msg) - 1):
-                    # rewind 0x1a, except when it is at the last bit
-                    reminder.extend([m, m])
-                else:
-                    reminder.append(m)
-            self.buffer = [0x1A] + msg
-        else:
-            self.buffer = []
+        # save the reminder for next reading cycle: the raw (still escaped)
+        # bytes from the start of the unfinished frame
+        self.buffer = self.buffer[start:]
 
         # extract messages
         messages = []
@@ -170,6 +161,7 @@ class TcpClient(object):
         messages_mlat = []
         msg = []
         i = 0
+        start = 0  # position of the <esc> that opened the frame being read
 
         # process the buffer until the last divider <esc> 0x1a
         # then, reset the self.buffer with the remainder
@@ -178,32 +170,22 @@ class TcpClient(object):
             if self.buffer[i : i + 2] == [0x1A, 0x1A]:
                 msg.append(0x1A)
                 i += 1
-            elif (i == len(self.buffer) - 1) and (self.buffer[i] == 0x1A):
-                # special case where the last bit is 0x1a
-                msg.append(0x1A)
             elif self.buffer[i] == 0x1A:
                 if i == len(self.buffer) - 1:
-                    # special case where the last bit is 0x1a
-                    msg.append(0x1A)
-                elif len(msg) > 0:
+                    # <esc> is the last byte: either a divider or the first
+                    # half of <esc><esc>, decided when the next byte arrives
+                    break
+                if len(msg) > 0:
                     messages_mlat.append(msg)
                     msg = []
+                start = i
             else:
                 msg.append(self.buffer[i])
             i += 1
 
-        # save the reminder for next reading cycle, if not empty
-        if len(msg) > 0:
-            reminder = []
-            for i, m in enumerate(msg):
-                if (m == 0x1A) and (i < len(msg) - 1):
-                    # rewind 0x1a, except when it is at the last bit
-                    reminder.extend([m, m])
-                else:
-                    reminder.append(m)
-            self.buffer = [0x1A] + msg
-        else:
-            self.buffer = []
+        # save the reminder for next reading cycle: the raw (still escaped)
+        # bytes from the start of the unfinished frame
+        self.buffer = self.buffer[start:]
 
         # extract messages
         messages = []
